@@ -83,6 +83,13 @@ impl Out {
     }
 }
 
+/// Line-wise agreement for sequence outcomes: a line reporting an error is always acceptable
+/// under a fault, every other line must equal the fault-free line.
+pub fn lines_agree(got: &str, reference: &str) -> bool {
+    let (g, r): (Vec<&str>, Vec<&str>) = (got.lines().collect(), reference.lines().collect());
+    g.len() == r.len() && g.iter().zip(&r).all(|(a, b)| a.contains(": ERR ") || a == b)
+}
+
 pub fn header_from_spec(h: &SpecHeader) -> Header {
     let mut x = Header::default();
     x.spec_version = 3;
@@ -246,20 +253,24 @@ fn perform_inner(call: &Call, prep: &Prepared, face: Face, pol: &Policy, fault: 
             if ids.is_empty() {
                 return Ok((Out::Text("no tiles".into()), 0));
             }
-            let id = ids[*nth as usize % ids.len()];
+            // a short sequence of lookups (a, b, b again, a again): the fault window is relative to
+            // the start of the sequence; each lookup is judged on its own (see `lines_agree`)
+            let a = ids[*nth as usize % ids.len()];
+            let b = ids[(*nth as usize + 1) % ids.len()];
             let n0 = h.nops();
             h.set_fault(shift(fault, n0));
-            let r = sut::get(&mut pm, id, face)?;
+            let mut lines = Vec::new();
+            for id in [a, b, b, a] {
+                let r = sut::get(&mut pm, id, face)?;
+                lines.push(match r {
+                    Ok(Some(b)) => format!("tile {id}: {} bytes hash {:x}", b.len(), hash_bytes(0, &b)),
+                    Ok(None) => format!("tile {id}: none"),
+                    Err(e) => format!("tile {id}: ERR {:?}", e.kind()),
+                });
+            }
             let n = h.nops() - n0;
             ctx.absorb(&h);
-            Ok((
-                match r {
-                    Ok(Some(b)) => Out::Text(format!("tile {id}: {} bytes hash {:x}", b.len(), hash_bytes(0, &b))),
-                    Ok(None) => Out::Text(format!("tile {id}: none")),
-                    Err(e) => Out::Failed(format!("{:?}", e.kind())),
-                },
-                n,
-            ))
+            Ok((Out::Text(lines.join("\n")), n))
         }
         Call::Rewrite { on_reader, .. } => {
             let img = prep.img.as_ref().expect("prepared");
